@@ -3,6 +3,7 @@ from vf import Stage
 
 PACKET = Stage(
     family="packet",
+    reset_ev="NewW",
     mc={"quick": [("MC_Packet.tla", "MC_Packet_quick.cfg", "pass")],
         "thorough": [("MC_Packet.tla", "MC_Packet.cfg", "pass")]},
     parts={"quick": [("", 4)], "thorough": [("", 8)]},
@@ -13,6 +14,7 @@ PACKET = Stage(
 
 FRAME = Stage(
     family="frame",
+    reset_ev="Start",
     mc={"quick": [("MC_Frame.tla", "MC_Frame_quick.cfg", "pass"), ("MC_Frame.tla", "MC_Frame_neg.cfg", "fail")],
         "thorough": [("MC_Frame.tla", "MC_Frame.cfg", "pass"), ("MC_Frame.tla", "MC_Frame_neg.cfg", "fail")]},
     parts={"quick": [("", 4)], "thorough": [("", 8)]},
@@ -87,6 +89,7 @@ TLV = Stage(
 
 SESSION = Stage(
     family="session",
+    reset_ev="Start",
     mc={"quick": [("MC_Session.tla", "MC_Session.cfg", "pass"), ("MC_Session.tla", "MC_Session_neg.cfg", "fail")],
         "thorough": [("MC_Session.tla", "MC_Session_t.cfg", "pass"), ("MC_Session.tla", "MC_Session_neg.cfg", "fail")]},
     parts={"quick": [("exchange", 2), ("dispatch", 2)], "thorough": [("exchange", 4), ("dispatch", 4)]},
@@ -97,6 +100,7 @@ SESSION = Stage(
 
 AUTH = Stage(
     family="auth",
+    reset_ev="Build",
     mc={"quick": [("MC_Auth.tla", "MC_Auth.cfg", "pass"), ("MC_Auth.tla", "MC_Auth_neg.cfg", "fail")],
         "thorough": [("MC_Auth.tla", "MC_Auth_t.cfg", "pass"), ("MC_Auth.tla", "MC_Auth_neg.cfg", "fail")]},
     parts={"quick": [("", 4)], "thorough": [("", 8)]},
@@ -158,6 +162,7 @@ SPLIT_BATCH = Stage(
 
 MEM = Stage(
     family="mem",
+    reset_ev="Start",
     mc={"quick": [("MC_Mem.tla", "MC_Mem.cfg", "pass"), ("MC_Mem.tla", "MC_Mem_nocopy.cfg", "fail"),
                   ("MC_Mem.tla", "MC_Mem_alias.cfg", "fail")],
         "thorough": [("MC_Mem.tla", "MC_Mem_t.cfg", "pass"), ("MC_Mem.tla", "MC_Mem_nocopy.cfg", "fail"),
@@ -169,6 +174,7 @@ MEM = Stage(
 
 CONC = Stage(
     family="conc",
+    reset_ev="Start",
     mc={"quick": [("Conc.tla", "MC_Conc.cfg", "pass"), ("Conc.tla", "MC_Conc_static.cfg", "pass"),
                   ("Conc.tla", "MC_Conc_neg.cfg", "fail"), ("Conc.tla", "MC_Conc_neg_residue.cfg", "fail"),
                   ("Conc.tla", "MC_Conc_neg_lazy.cfg", "fail")],
@@ -184,6 +190,7 @@ CONC = Stage(
 
 GATEWAY = Stage(
     family="gateway",
+    reset_ev="Start",
     mc={"quick": [("Gateway.tla", "MC_Gateway.cfg", "pass"), ("Gateway.tla", "MC_Gateway_neg.cfg", "fail")],
         "thorough": [("Gateway.tla", "MC_Gateway_t.cfg", "pass"), ("Gateway.tla", "MC_Gateway_neg.cfg", "fail")]},
     parts={"quick": [("", 2)], "thorough": [("", 8)]},
